@@ -184,6 +184,24 @@ def check_dialect(ctx, d):
     for tok, cs in sorted(infix.items()):
         ctx.ob('C03.infix-class-unique', f'{d}:{tok}', len(cs) == 1,
                f'{d}: token {tok} heads infix productions of different classes {sorted(cs)}', file=g.file)
+    # (1b) an operator written as several words is one token whatever ignored whitespace separates the words: otherwise the ordered lexer falls back to the
+    # single-word tokens and the grammar groups them differently (`a IS <newline> NOT NULL` -> `a IS (NOT NULL)`)
+    from ..lexmodel import master_for
+    master = master_for(g.lexer)
+    ncomp = 0
+    for tok in sorted(set(used) | set(infix)):
+        sp = spelling(g.lexer, tok)
+        if not sp or len(sp.split()) < 2:
+            continue
+        ncomp += 1
+        for sep in (' ', '\t', '\n', '\r\n', '  \n\t '):
+            text = sep.join(sp.split())
+            got = master.types(text)
+            ctx.ob('C03.compound-operator-token', f'{d}:{tok}:{sep!r}', got == [tok],
+                   f'{d}: the operator `{sp}` written with {sep!r} between its words lexes to {got} instead of the single token {tok}: the words are then '
+                   f'grouped by the rules of the single-word operators (`a IS (NOT NULL)`)', file=g.lexer.file if hasattr(g.lexer, 'file') else g.file,
+                   witness=f'select a {text} b')
+    ctx.count('compound_operator_tokens', ncomp)
     # (2) the grouping obligations
     nops = 0
     matrix = {}
@@ -432,3 +450,4 @@ def run(ctx):
     ctx.floor('quadruples', 600)
     ctx.floor('operator_productions', 3 * 20)
     ctx.floor('between_states', 3)
+    ctx.floor('compound_operator_tokens', 5)
